@@ -1,6 +1,8 @@
 #!/bin/sh
-# MANIFEST.setup_cmd — build the Lean models, theorems and the compiled model driver, offline.
+# MANIFEST.setup_cmd — build the Lean models, theorems and the compiled model drivers, offline.
 cd "$(dirname "$0")/lean" || exit 2
-lake build Amoco Generated amoco_driver 2>&1 | tail -5
-test -x .lake/build/bin/amoco_driver || { echo "driver not built"; exit 1; }
+PROPS=$(ls Amoco/Props/*.lean 2>/dev/null | sed 's/\.lean$//; s#/#.#g')
+EXES=$(grep '^name = "' lakefile.toml | sed 's/name = "\(.*\)".*/\1/' | grep -E '^(amoco_driver|drv_)')
+lake build $PROPS $EXES 2>&1 | tail -15
+for e in $EXES; do test -x .lake/build/bin/$e || { echo "driver $e not built"; exit 1; }; done
 echo setup-ok
